@@ -297,6 +297,8 @@ class Driver:
         self.pending_q = None   # ('text'|'exec'|'fieldlist', id, cursor)
         self.source = None
         self.done_reported = False
+        self.init_returned = False
+        self.last_cmd = None
         self.handshaken = False
         self.env.settle()
         self.boot_obs = self.observe()
@@ -361,6 +363,8 @@ class Driver:
 
     def decide(self, d, more=()):
         """resolve the pending get_user with the scripted verdict d"""
+        if self.pending_call() != "get_user":
+            return self.app_result("void")
         script = {"ASuccess": ["success"], "AForbidden": ["forbidden"], "AMore": ["more"], "ASwitch": []}.get(d, [])
         self.box["script"] = list(script)
         if d == "ANoUser":
@@ -458,11 +462,28 @@ class Driver:
                         if isinstance(a, tuple) and a[0] == "PPrepOk":
                             self.stmts[a[1]] = dict(nparams=a[2])
 
+    def pending_call(self):
+        for ob in reversed([self.boot_obs] + self.obs):
+            calls = [o[1] for o in ob[0] if isinstance(o, tuple) and o[0] == "OSess"]
+            if calls:
+                return calls[-1]
+        return None
+
     def app_result(self, kind, ncols=1, items=(), asynchronous=False, raise_code=None):
         """resolve the pending application call.  kind: 'void' | 'none' | 'set' | 'raise'"""
+        pc = self.pending_call()
+        if pc == "get_user":
+            return self.decide("ASuccess")
+        if kind in ("set", "none") and pc != "query":
+            kind = "void"
+        if kind == "void" and pc == "query":
+            kind = "none"
         if kind == "void":
+            was_init = pc == "init"
             self.env.resolve(("app", 0), None, settle=False)
             self.record("EvApp OVoid")
+            if was_init:
+                self.init_returned = True
         elif kind == "none":
             self.env.resolve(("app", 0), None, settle=False)
             self.record("EvApp ONone")
@@ -555,9 +576,18 @@ class Driver:
         elif name == "EvEofMidPacket":
             self.reader.feed_data(b"\x05\x00")
             self.reader.feed_eof()
+            name = "EvEofMidPacket false"
         elif name == "EvBadSeq":
             self.reader.feed_data(cl.frame(b"\x0e", 9))
         self.record(name)
+
+    def eof_mid(self, k):
+        """the client sends the first k bytes of a PING packet and goes away"""
+        data = cl.frame(bytes([cl.COM_QUERY]) + b"SELECT 12345", self._client_seq() if not self.handshaken or _awaiting_auth_reply(self) else 0)
+        k = max(1, min(k, len(data) - 1))
+        self.reader.feed_data(data[:k])
+        self.reader.feed_eof()
+        self.record(f"EvEofMidPacket {core.coq_bool(k >= 4)}")
 
     def kill(self, kind, selfkill=False):
         k = KillKind.QUERY if kind == "KQ" else KillKind.CONNECTION
@@ -712,6 +742,9 @@ def random_walk(rng, d: Driver, nsteps, faults=True, kills=True, auth_variants=T
                 ch = rng.random()
                 d.handshake(ok=ch > 0.08, depeof=rng.random() < 0.5)
             elif d.session is not None and _awaiting_auth_reply(d):
+                if faults and rng.random() < 0.05:
+                    d.simple(rng.choice(["EvEof", "EvEofMidPacket"]))
+                    continue
                 d.auth_reply(rng.choice(["ASuccess", "ASuccess", "AForbidden", "AMore", "ARaise"]))
             else:
                 ch = rng.random()
@@ -785,23 +818,31 @@ def responses(d: ls.Driver):
     out = []
     cur = None
     seen_payload = False
+    killed = False
     for ev, ob, cmd in zip(d.events, d.obs, d.cmds):
+        if ev in ("EvKill KC", "EvKillSelf KC"):
+            killed = True      # the ERR announcing the termination is not a response to a command
+            cur = None         # the command in progress is abandoned together with the connection
+            break
         if ev.startswith("EvPayload"):
             seen_payload = True
             if cur is not None:
                 out.append(cur)
             cur = [cmd, [], False]
+        if cur is not None and ev.startswith("EvKill"):
+            cur[0] = tuple(cur[0]) + ("killed",)
         if cur is not None:
             for o in ob[0]:
                 if isinstance(o, tuple) and o[0] == "OWrite":
                     cur[1].extend((q, a) for q, a, _ in o[1])
-            if ob[1] == "read" or ob[1] == "done":
+            mid_exchange = bool(cur[1]) and cur[1][-1][1] in ("PAuthSwitch", "PAuthMore")
+            if (ob[1] == "read" and not mid_exchange) or ob[1] == "done":
                 cur[2] = True
                 out.append(cur)
                 cur = None
         else:
             # not inside a command: anything written in command phase is unsolicited
-            if seen_payload and any(isinstance(o, tuple) and o[0] == "OWrite" for o in ob[0]):
+            if seen_payload and not killed and any(isinstance(o, tuple) and o[0] == "OWrite" for o in ob[0]):
                 out.append([("idle",), [(q, a) for o in ob[0] if isinstance(o, tuple) and o[0] == "OWrite" for q, a, _ in o[1]], True])
     if cur is not None:
         out.append(cur)
@@ -824,7 +865,11 @@ def grammar_terms(drivers):
             if cmd[0] == "execute":
                 rk = f"(RKExecute {core.coq_bool(cmd[2])})"
             seqs = [q for q, _ in pk]
-            if seqs != [(1 + i) % 256 for i in range(len(seqs))]:
+            exp, e = [], 1
+            for _, a in pk:
+                exp.append(e % 256)
+                e += 2 if a in ("PAuthSwitch", "PAuthMore") else 1   # the client's reply takes one id
+            if seqs != exp and not (cmd[0] == "changeuser" and cmd[-1] == "killed"):
                 witness = witness or dict(kind="sequence", command=repr(cmd), seqs=seqs[:10], events=d.events[:40])
             oterms.append(f"accepts {core.coq_bool(d.depeof)} {rk} {core.coq_list([coq_pkt(a) for _, a in pk])}")
             refs.append((d, cmd, pk))
